@@ -147,7 +147,7 @@ PROPS = {
         "not_decided": "longest-match selection, substitution and restoration — computations over run-time key lists",
     },
     "C15": {
-        "rules": [r_reload.run_all],
+        "rules": [r_reload.run_all, r_reload.rule_runtime],
         "explanation": "Decides: (R-RELOAD-ATOMIC) every write to kanata's state, MAPPED_KEYS, zippychord and the output options in "
                        "do_live_reload lies in the region dominated by the Ok arm of cfg::new_from_file, and no `?` exit is "
                        "reachable after the first such write; (R-RELOAD-FIELDS) each Kanata field whose start-up initialiser "
